@@ -1382,29 +1382,35 @@ let run_ligflow c =
   let fo = fo () in
   if not (has c "n_rows") then obs1 "commit" "S" "ok" else begin
     obs1 "commit" "S" "ok";
-    let lig = List.map int_of_string (get c "lig") in
-    let rho_inv = List.nth lig 1 and wf = List.nth lig 2 = 1 in
+    let bd = has c "scheme" && str1 c "scheme" = "brakedown_ml" in
+    let wf = int1 c "wf" = 1 in
     let n_rows = int1 c "n_rows" and n_cols = int1 c "n_cols" and n_ext = int1 c "n_ext" in
-    obs1 "dom_size" "N" (Z.to_string (Sizes.next_pow2 (Z.of_int (n_cols * rho_inv))));
+    if not bd then begin
+      let rho_inv = int_of_string (List.nth (get c "lig") 1) in
+      obs1 "dom_size" "N" (Z.to_string (Sizes.next_pow2 (Z.of_int (n_cols * rho_inv))))
+    end;
     let nn = nat_of_int in
     let undash k = let v = get c k in if v = [ "-" ] then [] else v in
     let coeffs = List.map f_of_str (undash "coeffs") in
     let rows = Ligero.lig_matrix fo (nn n_rows) (nn n_cols) coeffs in
-    let omega = f_of_str (str1 c "omega") in
-    let z = if has c "scheme" && str1 c "scheme" = "ligero_ml" then tof Z.zero else f_of_str (str1 c "pt") in
-    let cext = List.map (Ligero.encode fo omega (nn n_ext)) rows in
+    let omega = if bd then tof Z.zero else f_of_str (str1 c "omega") in
+    let ml = has c "scheme" && (str1 c "scheme" = "ligero_ml" || bd) in
+    let z = if ml then tof Z.zero else f_of_str (str1 c "pt") in
+    let gmat = if bd then List.map (fun (_, row) -> List.map f_of_str row) (indexed c "G") else [] in
+    let cext = if bd then List.map (Ligero.mat_enc fo gmat (nn n_ext)) rows else List.map (Ligero.encode fo omega (nn n_ext)) rows in
     let sqs pre = List.map (fun (_, b) -> List.map Z.of_string b) (indexed c (pre ^ "sq")) in
     let rtape pre = List.map f_of_str (undash (pre ^ "r")) in
     let idx_of pre = match CalcT.indices_of (Z.of_int n_ext) (sqs pre) with
       | Result.Ok l -> List.map (fun x -> nn (Z.to_int x)) l | _ -> [] in
-    let ml = has c "scheme" && str1 c "scheme" = "ligero_ml" in
     let point = if ml then List.map f_of_str (undash "point_vec") else [] in
     let chk value pf pre =
-      if ml then Ligero.l_check_ml fo wf (nn n_cols) (nn n_ext) omega cext point value pf (rtape pre) (idx_of pre)
+      if bd then Ligero.l_check_bd fo gmat wf (nn n_cols) (nn n_ext) cext point value pf (rtape pre) (idx_of pre)
+      else if ml then Ligero.l_check_ml fo wf (nn n_cols) (nn n_ext) omega cext point value pf (rtape pre) (idx_of pre)
       else Ligero.l_check fo wf (nn n_rows) (nn n_cols) (nn n_ext) omega cext z value pf (rtape pre) (idx_of pre) in
     if has c "p.nsq" then begin
       let op =
-        if ml then Ligero.l_open_ml fo wf (nn n_cols) (nn n_ext) omega rows point (rtape "p.") (idx_of "p.")
+        if bd then Ligero.l_open_bd fo gmat wf (nn n_cols) (nn n_ext) rows point (rtape "p.") (idx_of "p.")
+        else if ml then Ligero.l_open_ml fo wf (nn n_cols) (nn n_ext) omega rows point (rtape "p.") (idx_of "p.")
         else Ligero.l_open fo wf (nn n_rows) (nn n_cols) (nn n_ext) omega rows z (rtape "p.") (idx_of "p.") in
       obs1 "open" "S" (class_of op);
       match op with
